@@ -5,12 +5,20 @@
 #include "fx.h"
 #include <math.h>
 #include <dirent.h>
+#include <time.h>
 
 int count_tasks(void)
 {
     DIR *d = opendir("/proc/self/task"); if (!d) return -1; int c = 0; struct dirent *e;
     while ((e = readdir(d))) if (e->d_name[0] != '.') c++;
     closedir(d); return c;
+}
+/* after pthread_join the kernel may still list the exited task for an instant: wait briefly before calling it a leftover thread */
+int tasks_after(int expected)
+{
+    int c = count_tasks();
+    for (int i = 0; i < 200 && c != expected; ++i) { struct timespec ts = { 0, 1000000 }; nanosleep(&ts, NULL); c = count_tasks(); }
+    return c;
 }
 int count_fds(void)
 {
@@ -64,7 +72,7 @@ void fx_factor_gstrf(fx_t *x)
     vt->gstrf(&x->opt, &x->AC, x->perm_r, &x->L, &x->U, &x->gs, &x->info);
     g_track = 0;
     sched_end_factor();
-    int t1 = count_tasks();
+    int t1 = tasks_after(t0);
     if (t0 != t1) verdict_fail("C04:thread_count_changed", "threads before factorization %d, after %d", t0, t1);
     x->have_opt = 1; x->have_LU = 1;
 }
@@ -81,7 +89,7 @@ void fx_factor_gssv(fx_t *x, SuperMatrix *B)
     g_phase = "gssv";
     LIB(x->vt->gssv(x->P, &x->M->A, x->perm_c, x->perm_r, &x->L, &x->U, B, &x->info));
     sched_end_factor();
-    int t1 = count_tasks();
+    int t1 = tasks_after(t0);
     if (t0 != t1) verdict_fail("C04:thread_count_changed", "threads before the driver call %d, after %d", t0, t1);
     x->have_LU = 1;
 }
